@@ -10,7 +10,7 @@ LEVEL = "exploration"
 N = {"quick": 2800, "thorough": 12000}
 RULE = ("cases: (constraint list, dyadic behaviour) with the behaviour placed on / just inside / just outside (2^-6) a chosen "
         "constraint boundary or random, behaviours missing a constrained variable, behaviours with extra variables, emptiness "
-        "queries on feasible / infeasible / thin systems (margins 0, 1e-3, 1e-2, 1) optionally with unrelated rows of magnitude 2^-10..1e6, and refinement-consistency pairs L within R; "
+        "queries on feasible / infeasible / thin systems (margins 0, 1e-3, 1e-2, 1) optionally with unrelated rows of magnitude 2^-10..1e6, mined solver-hard systems (corpus/lp_hard), and refinement-consistency pairs L within R; "
         "expected answers by Fraction evaluation and exact feasibility; non-trivial = list has >= 2 terms or >= 2 variables and "
         "the case was judged; distinct = SHA-1 of the case")
 ASSUMPTIONS = ["emptiness is judged only when robust: exactly feasible => must be non-empty; infeasible even after relaxing every constant by 1e-4 => must be empty"]
@@ -80,6 +80,21 @@ def _empty(draw):
 
 
 @st.composite
+def _empty_hard(draw):
+    """a mined, satisfiable, badly scaled system on which the solver's first answer is not optimal: non-empty (exact witness);
+    with one row turned against the witness by a clear margin it is empty"""
+    terms, w, row = draw(gens.lp_hard_s())
+    cls = "lp-hard-feasible"
+    if draw(st.integers(0, 2)) == 0:
+        k = draw(st.integers(0, len(terms) - 1))
+        t = terms[k]
+        terms = terms + [[{n: -v for n, v in t[0].items()}, float(-t[1] - max(1.0, abs(t[1])) * draw(st.sampled_from([0.01, 0.5])) - 1.0)]]
+        terms = list(draw(st.permutations(terms)))
+        cls = "lp-hard-infeasible"
+    return {"kind": "empty", "terms": terms, "cls": cls}
+
+
+@st.composite
 def _consistency(draw):
     nv = draw(st.integers(1, 4))
     pool = P[:nv]
@@ -101,7 +116,8 @@ def _consistency(draw):
 
 
 def strategy(tier):
-    return st.one_of(_member(), _member(), _member(), _empty(), _empty(), _consistency())
+    return st.one_of(_member(), _member(), _member(), _member(), _member(), _member(), _empty(), _empty(), _empty(), _empty(),
+                     _consistency(), _consistency(), _empty_hard())
 
 
 def _beh(b):
@@ -144,7 +160,10 @@ def run_case(case):
         labels.append("class:" + case["cls"])
         st_, got = env.call("is_empty", env.TL(terms).is_empty)
         if st_ == "refused":
-            return {"viol": {"what": "is_empty raised %r" % got, "sig": {"kind": "is_empty-raised"}, "detail": {}}, "nontrivial": False, "labels": labels}
+            mags = [abs(v) for t in terms for v in t[0].values() if v != 0]
+            return {"viol": {"what": "is_empty raised %r" % got,
+                             "sig": {"kind": "is_empty-raised", "ill_conditioned": bool(mags) and max(mags) / min(mags) >= 1e5}, "detail": {}},
+                    "nontrivial": False, "labels": labels}
         if exact.feasible([exact.conj(terms)]):
             exp = False
         elif not exact.feasible([("and", [exact.le(t, exact.tol(t)) for t in terms])]):
